@@ -56,7 +56,7 @@ Theorem C15_filter_requests_tsync :
   gen_tsync = FLAG_TSYNC /\
   forall o fv ok, In (ALoad fv ok) (fst (gen_run o)) ->
   fv = [VStruct "seccomp.Filter"%string
-          [("NoNewPrivs"%string, flag_nnp_var); ("Flag"%string, VNum gen_tsync); ("Policy"%string, VOpaque "Seccomp"%string)]].
+          [("Flag"%string, VNum gen_tsync); ("NoNewPrivs"%string, flag_nnp_var); ("Policy"%string, VOpaque "Seccomp"%string)]].
 Proof. exact (conj eq_refl (filter_requests_tsync gen_tsync gen_run gen_sandbox_ref)). Qed.
 Print Assumptions C15_filter_requests_tsync.
 
